@@ -133,6 +133,14 @@ def _grid_rank(ctx, c):
     from pygyro.model.layout import getLayoutHandler
     from pygyro.model.grid import Grid
     cfg = c["cfg"]
+    # an earlier, unrelated set-up in the same process (another velocity domain), used once and then released: whatever
+    # the library remembers about it must not reach the objects built afterwards
+    import gc
+    old = dict(cfg, phys=dict(cfg.get("phys", {}), vMax=4.0, vMin=-3.5))
+    g0, c0 = sim.setup_distrib(ctx.comm, old, "v_parallel", c["nprocs"], save=False)
+    d0 = DensityFinder(6, g0.getSpline(3), g0.eta_grid, c0)
+    del d0, g0, c0
+    gc.collect()
     f, consts = sim.setup_distrib(ctx.comm, cfg, "v_parallel", c["nprocs"], save=False)
     eta = f.eta_grid
     F = sim.equilibrium_like_field(cfg, eta, c["seed"])
